@@ -45,6 +45,9 @@ def gen_one(rng):
     n = 1 + (case["retry"] or 0)
     bias = rng.choice([0.0, 0.5, 1.0, 1.0])
     case["attempts"] = [gen_attempt_script(rng, case, bias if j < n - 1 or rng.random() < 0.5 else 0.2) for j in range(n)]
+    # builder chain order: `.after()` before `.before()` in 30%; a classifier installed first / last in 20% each
+    case["chain"] = 1 if rng.random() < 0.3 else 0
+    case["which"] = rng.choice([0, 0, 0, 1, 2])
     return case
 
 
